@@ -345,6 +345,7 @@ HashKeyDoc(a) == [nil |-> a.nil, nodes |-> [p \in DOMAIN a.nodes |-> NodeEqKey(a
 (* Compose / transform (A6)                                                *)
 (***************************************************************************)
 NsMerge(a, b) == IF b # "" THEN b ELSE a
+NumLeavesOf(spec) == spec.nodes[Len(spec.nodes)].nl
 RECURSIVE ComposeAt(_, _, _)
 \* node array of outer[..p] with every leaf replaced by inner
 ComposeAt(onodes, p, inner) ==
@@ -361,6 +362,44 @@ Compose(a, b) ==
   ELSE IF a.ns # "" /\ b.ns # "" /\ a.ns # b.ns THEN Err("Value")
   ELSE [err |-> "", spec |-> [nodes |-> ComposeAt(a.nodes, Len(a.nodes), b.nodes), nil |-> a.nil,
                                ns |-> NsMerge(a.ns, b.ns)]]
+
+(***************************************************************************)
+(* treespec_from_collection and the named constructors (A6): `t` is the    *)
+(* collection object (only its root matters), `kidspecs` the treespecs it  *)
+(* holds, in the collection's own (insertion) order.                       *)
+(***************************************************************************)
+RECURSIVE CommonNs(_, _, _)
+\* common non-empty namespace of the specs from index i on: [err, ns]
+CommonNs(specs, i, acc) ==
+  IF i > Len(specs) THEN [err |-> "", ns |-> acc]
+  ELSE IF specs[i].ns = "" THEN CommonNs(specs, i + 1, acc)
+  ELSE IF acc = "" THEN CommonNs(specs, i + 1, specs[i].ns)
+  ELSE IF acc # specs[i].ns THEN Err("Value")
+  ELSE CommonNs(specs, i + 1, acc)
+MakeFromCollection(t, kidspecs, c) ==
+  LET cc == [c EXCEPT !.haspred = FALSE]
+      k == KindOf(t, cc) IN
+  IF k = "leaf" THEN [err |-> "", warn |-> TRUE, spec |-> [nodes |-> <<LeafNode>>, nil |-> c.nil, ns |-> c.ns]]
+  ELSE IF k = "none" THEN [err |-> "", warn |-> FALSE, spec |-> [nodes |-> <<NoneNode>>, nil |-> c.nil, ns |-> c.ns]]
+  ELSE
+    LET ord == ChildOrder(t, cc, k)               \* dict kinds: sorted unless the ARGUMENT namespace is insertion-ordered
+        kids == [i \in 1..Len(ord) |-> kidspecs[ord[i]]]
+        cn == CommonNs(kids, 1, "")
+    IN IF \E i \in DOMAIN kids : kids[i].nil # c.nil THEN Err("Value")
+       ELSE IF IsErr(cn) THEN Err("Value")
+       ELSE IF cn.ns # "" /\ c.ns # "" /\ c.ns # cn.ns THEN Err("Value")
+       ELSE
+         LET body == Concat([i \in DOMAIN kids |-> kids[i].nodes])
+             node == [kind |-> KindNum(k), arity |-> Len(kids),
+                      keys |-> IF IsDictKindName(k) THEN [i \in 1..Len(ord) |-> t.keys[ord[i]]] ELSE <<>>,
+                      m |-> CASE k \in {"nt", "ss"} -> t.cls [] k \in {"deque", "ddict", "custom"} -> t.meta [] OTHER -> 0,
+                      hasent |-> k = "custom" /\ t.hasent, ent |-> IF k = "custom" /\ t.hasent THEN t.ent ELSE <<>>,
+                      cls |-> IF k = "custom" THEN t.cls ELSE 0,
+                      nl |-> SeqSum([i \in DOMAIN kids |-> NumLeavesOf(kids[i])]), nn |-> Len(body) + 1,
+                      okeys |-> IF k \in {"dict", "ddict"} THEN t.keys ELSE <<>>, hasok |-> k \in {"dict", "ddict"}]
+         IN [err |-> "", warn |-> FALSE,
+             spec |-> [nodes |-> Append(body, node), nil |-> c.nil,
+                       ns |-> IF cn.ns # "" THEN cn.ns ELSE IF k = "custom" THEN c.ns ELSE ""]]
 
 (***************************************************************************)
 (* Prefix relation, spec vs spec (declarative definition)                  *)
